@@ -31,6 +31,11 @@ ALPHABET = collections.OrderedDict([
     ("utf8-bom", b"\xef\xbb\xbfa  ;\n"),
     ("utf16le-bom", "﻿a  ;\n".encode("utf-16-le")),
     ("utf16be-bom-formatted", "﻿a;\n".encode("utf-16-be")),
+    # several KiB that are already in their final form, then one change at the end (behind a BOM and without one):
+    # a rewrite that skips the unchanged front must still leave exactly what stdin mode prints
+    ("late-change", b"".join(b"x%d := %d;\n" % (i, i) for i in range(600)) + b"z   ;\n"),
+    ("utf8-bom-late-change", b"\xef\xbb\xbf" + b"".join(b"x%d := %d;\n" % (i, i) for i in range(600)) + b"z   ;\n"),
+    ("utf16le-bom-late-change", ("\ufeff" + "".join("x%d := %d;\n" % (i, i) for i in range(600)) + "z   ;\n").encode("utf-16-le")),
     ("directory", ("dir",)),
     ("dangling-symlink", ("symlink",)),
     ("missing", ("missing",)),
